@@ -126,6 +126,7 @@ def gen_op(rng: random.Random, cfg: dict, kind: str | None = None) -> dict:
             # a client that fills in the lineage id itself: the one the named track has
             # when the call is made, or the one of the node whose attributes it copied
             lineage=rng.choice([None] * 8 + ["of_track", "of_any"]),
+            scribble=rng.random() < 0.25,
         )
         if inval:
             op["invalid"] = rng.choice(["exists", "no_time", "no_track", "no_pos", "no_pos", "partial_pos", "id_overflow", "bad_pixels", "bad_value"])
@@ -184,6 +185,7 @@ def gen_op(rng: random.Random, cfg: dict, kind: str | None = None) -> dict:
             big=rng.random() < (0.35 if fl.get("trap") else 0.1),
             noop=rng.choice([None] * 30 + ["bg", "empty"]),
             merge_frames=rng.random() < 0.5, frames_prev=rng.random() < 0.5, extra_first=rng.random() < 0.5,
+            scribble=rng.random() < 0.25,
         )
         if inval:
             op["invalid"] = "two_frames"
